@@ -85,7 +85,7 @@ class PriorityEncoder(Elaboratable):
 
     def elaborate(self, platform):
         m = Module()
-        m.d.comb += self.o.eq(count_trailing_zeros(self.i))
+        m.d.comb += self.o.eq(Mux(self.i == 0, 0, count_trailing_zeros(self.i)))
         m.d.comb += self.n.eq(self.i == 0)
         return m
 
